@@ -71,6 +71,7 @@ pub fn run(tier: &str) -> Result<Report, String> {
             let mut g = Gen::new(alpha);
             let mut fs = g.closed_up_to(m_free);
             fs.extend(templates(&ctx.user, false, pool));
+            fs.extend(crate::formulas::pattern_condition_family(&ctx.user));
             fs
         } else {
             alpha.consts = vec![true, false];
@@ -79,6 +80,7 @@ pub fn run(tier: &str) -> Result<Report, String> {
             let mut g = Gen::new(alpha);
             let mut fs = g.closed_up_to(m_frag);
             fs.extend(templates(&ctx.user, false, pool).into_iter().filter(loop_insensitive));
+            fs.extend(crate::formulas::pattern_condition_family(&ctx.user).into_iter().filter(loop_insensitive));
             fs
         };
         debug_assert!(no_steady || fs.iter().all(loop_insensitive));
@@ -189,7 +191,7 @@ pub fn run(tier: &str) -> Result<Report, String> {
     rep.set("steady_state_free_networks", json!(steady_free));
     rep.sample(json!({"network": "asy2", "formula": "(!{x}: (AG (EF {x})))", "fragment": true}));
     rep.sample(json!({"network": "cyc3", "formula": "(!{x}: (AX (AF {x})))", "fragment": false, "why": "cyc3 has no steady state in any colour (decided by the independent transition systems)"}));
-    rep.rule = format!("core networks and the steady-state-free networks of the de-duplicated all-2-variable family (all formulae with <= 3, thorough 4, nodes): on networks where the independent transition systems have no steady state in any colour ({steady_free:?}) ALL closed formulae with <= {m_free} nodes over all operators (+ templates); on the others all closed formulae with <= {m_frag} nodes over the loop-insensitive fragment {{~ & | ^ => <=> EF AG EU AW ! @ 3 V}} (+ fragment templates): model_check_formula_unsafe_ex must return the same raw set as model_check_formula_dirty (BDD equality). plus two-network histories: ordered pairs (first network with steady states, second steady-state free, identical symbolic encoding) evaluated one after the other on one fresh OS thread, all formulae with <= 2 nodes on the second: variants agree and match the oracle. distinct_nontrivial = number of (formula, network) pairs");
+    rep.rule = format!("core networks and the steady-state-free networks of the de-duplicated all-2-variable family (all formulae with <= 3, thorough 4, nodes): on networks where the independent transition systems have no steady state in any colour ({steady_free:?}) ALL closed formulae with <= {m_free} nodes over all operators (+ templates); on the others all closed formulae with <= {m_frag} nodes over the loop-insensitive fragment {{~ & | ^ => <=> EF AG EU AW ! @ 3 V}} (+ fragment templates and the pattern-with-condition family: `!{{x}}: AG EF ({{x}} & PHI)` and its variants for 13 conditions PHI, some quantifying over transient states): model_check_formula_unsafe_ex must return the same raw set as model_check_formula_dirty (BDD equality). plus two-network histories: ordered pairs (first network with steady states, second steady-state free, identical symbolic encoding) evaluated one after the other on one fresh OS thread, all formulae with <= 2 nodes on the second: variants agree and match the oracle. distinct_nontrivial = number of (formula, network) pairs");
     rep.assumptions.push("the standard evaluation itself is validated against the oracle by C01/C13".into());
     Ok(rep)
 }
